@@ -155,6 +155,7 @@ def factories(rng):
     leg = gen.random_leg(rng, ci, nblocks=3, kind='generic')
     add(leg, 'generic')
     add(gen.random_leg(rng, ci, nblocks=3, kind='sorted-blocked'), 'sorted-blocked')
+    add(ch.LegCharge.from_qflat(ci, np.zeros((0, ci.qnumber), dtype=int)), 'leg without blocks')
     dup = gen.random_leg(rng, ci, nblocks=4, kind='dups')
     add(dup.sort(bunch=False)[1], 'sorted, not bunched')          # flags differ from each other
     add(dup.bunch()[1], 'bunched, not sorted')
